@@ -23,6 +23,7 @@ CONSTANTS MaxDials,            \* bound on the number of dials
           SyncingChoices,      \* possible sets of nodes that have the document in their sync set
           DialReasons,         \* reasons the environment dials with
           MaxLeaves,           \* bound on the number of times a node leaves the document (0: the sync set never changes)
+          OtherReasonsMayQueue, \* a dial refused for a reason other than SyncReport may queue a resync as well (trace validation only)
           JoinWaitsForQuiet,   \* a node re-joins only when none of its sessions is still in flight (assumption; FALSE shows why)
           Yielder              \* the node that gives up its own pending dial when both dial at once (the code: the greater
                                \* endpoint id = node 2; C11 only demands that exactly one of the two does)
@@ -61,13 +62,17 @@ AcceptDecision(m) ==
   ELSE IF m = Yielder THEN "Allow" ELSE "AlreadySyncing"     \* simultaneous dial: exactly one side yields
 
 \* ---- sync_with_peer / start_connect -------------------------------------------
-Dial(n, reason) ==
+DialAs(label, n, reason) ==
   /\ nd < MaxDials
-  /\ hist' = Append(hist, [a |-> "Dial", n |-> n, reason |-> reason, d |-> 0, res |-> ""])
+  /\ hist' = Append(hist, [a |-> label, n |-> n, reason |-> reason, d |-> 0, res |-> ""])
   /\ IF n \notin syncing
      THEN UNCHANGED <<st, resync, dials, owed>>
      ELSE IF st[n] # "Idle"
-     THEN /\ resync' = [resync EXCEPT ![n] = IF reason = "SyncReport" THEN TRUE ELSE @]
+     THEN \* a refused report queues a resync (C11); whether a dial refused for another reason queues one too is not
+          \* C11's business: the model follows the code (it does not), a validated trace may show either
+          /\ \E q \in (IF reason = "SyncReport" THEN {TRUE}
+                       ELSE IF OtherReasonsMayQueue THEN {resync[n], TRUE} ELSE {resync[n]}) :
+                resync' = [resync EXCEPT ![n] = q]
           /\ owed' = [owed EXCEPT ![n] = IF reason = "SyncReport" THEN TRUE ELSE @]
           /\ UNCHANGED <<st, dials>>
      ELSE /\ st' = [st EXCEPT ![n] = "Connect"]
@@ -75,6 +80,13 @@ Dial(n, reason) ==
           /\ dials' = Append(dials, NewDial(n, reason))
           /\ owed' = [owed EXCEPT ![n] = FALSE]
   /\ UNCHANGED <<syncing, syncing0, pend, leaves, bad>>
+
+Dial(n, reason) == DialAs("Dial", n, reason)
+
+\* start_sync for a document that is in the sync set already (a second import of the ticket, share, start_sync(peers)):
+\* the per-document state stays as it is; the peers remembered for the document are dialled like any DirectJoin dial,
+\* i.e. only a peer whose slot is idle
+StartSyncAgain(n) == MaxLeaves > 0 /\ n \in syncing /\ DialAs("StartSync", n, "DirectJoin")
 
 \* ---- network / tasks ----------------------------------------------------------
 LoseRequest(d) ==
@@ -196,7 +208,7 @@ DownloadReady(n, ok) ==
   /\ UNCHANGED <<st, resync, dials, syncing, syncing0, leaves, owed, bad>>
 
 Next ==
-  \/ \E n \in Node : Leave(n) \/ (\E now \in BOOLEAN : Join(n, now)) \/ QueueDownload(n) \/ \E ok \in BOOLEAN : DownloadReady(n, ok)
+  \/ \E n \in Node : Leave(n) \/ (\E now \in BOOLEAN : Join(n, now)) \/ StartSyncAgain(n) \/ QueueDownload(n) \/ \E ok \in BOOLEAN : DownloadReady(n, ok)
   \/ \E n \in Node, r \in DialReasons : Dial(n, r)
   \/ \E d \in Ids : \/ LoseRequest(d) \/ DeliverRequest(d)
                     \/ \E lost \in BOOLEAN : DeliverAbort(d, lost)
